@@ -116,3 +116,9 @@ pub open spec fn regex_cleaned(e: Seq<char>) -> Seq<char> { regex_clean3(regex_c
 /// the pattern that makes `e` match the WHOLE candidate: both anchors apply to the entire expression,
 /// also when `e` has a top-level alternation (`a|b`)
 pub open spec fn whole_line(e: Seq<char>) -> Seq<char> { seq!['^', '(', '?', ':'] + e + seq![')', '$'] }
+pub open spec fn printable_ascii(b: u8) -> bool { 0x20 <= b <= 0x7e }
+pub open spec fn exists_unprintable(bs: Seq<u8>) -> bool { exists|k: int| 0 <= k < bs.len() && !printable_ascii(#[trigger] bs[k]) }
+/// the escaped rendering of a byte string in ascii mode: the per-byte tokens, concatenated
+pub open spec fn enc_ascii(bs: Seq<u8>) -> Seq<char> decreases bs.len() {
+    if bs.len() == 0 { Seq::empty() } else { enc_ascii(bs.drop_last()) + enc_a(bs.last()) }
+}
